@@ -140,10 +140,10 @@ pub fn c14_object(a: &dyn Aml, raw: Option<&[u8]>, reference: &[u8], what: K, cx
             Err(e) => cx.fail(P14, "sink_independent", format!("{} refused to serialise into sink kind {}: {:?}", what.name(), w, e)),
         }
     }
-    // repeated serialisation
-    if let Ok(b) = catch(|| to_vec(a)) {
-        if b != reference {
-            cx.fail(P14, "repeatable", format!("{} serialised a second time differs (len {} vs {})", what.name(), b.len(), reference.len()));
+    // repeated serialisation into the same kind of sink
+    if let (Ok(b1), Ok(b2)) = (catch(|| to_vec(a)), catch(|| to_vec(a))) {
+        if b1 != b2 {
+            cx.fail(P14, "repeatable", format!("{} serialised twice into the vector sink gives different streams (len {} vs {})", what.name(), b1.len(), b2.len()));
         }
     }
     // checksum sink and the byte-sum helper
